@@ -2,6 +2,7 @@ package main
 
 import (
 	_ "embed"
+	"encoding/json"
 	"fmt"
 	"os"
 	"path/filepath"
@@ -17,6 +18,9 @@ import (
 
 //go:embed driver_store.go.txt
 var driverStore string
+
+//go:embed driver_media.go.txt
+var driverMedia string
 
 // resetDesign gives the DSL a fresh world (see /repo/expr/testing.go) and clears the
 // per-service caches of the code generators.
@@ -89,6 +93,12 @@ func generateAll(out, repo, harnessMod string) (map[string][]string, error) {
 			return nil, fmt.Errorf("design %s: generate: %w", d.Name, err)
 		}
 		files[d.Name] = outs
+		recordBranches(d.Name)
+	}
+	if b, err := json.MarshalIndent(map[string]any{"covered": branchCover, "required": requiredBranches}, "", " "); err == nil {
+		if err := os.WriteFile(filepath.Join(out, "..", "template_branches.json"), b, 0o644); err != nil {
+			return nil, err
+		}
 	}
 	// the driver that mounts the generated "store" server and drives the generated client
 	ddir := filepath.Join(out, "store", "cmd", "echo")
@@ -98,5 +108,136 @@ func generateAll(out, repo, harnessMod string) (map[string][]string, error) {
 	if err := os.WriteFile(filepath.Join(ddir, "main.go"), []byte(driverStore), 0o644); err != nil {
 		return nil, err
 	}
+	mdir := filepath.Join(out, "media", "cmd", "echo")
+	if err := os.MkdirAll(mdir, 0o755); err != nil {
+		return nil, err
+	}
+	if err := os.WriteFile(filepath.Join(mdir, "main.go"), []byte(driverMedia), 0o644); err != nil {
+		return nil, err
+	}
 	return files, nil
+}
+
+// ---- which branches of the server / client handler templates the fixed designs reach ----
+//
+// Computed from the generators' own template data (httpcodegen.EndpointData), i.e. from
+// the very values the {{ if }} conditions of server_handler_init.go.tpl, server_handler.go.tpl,
+// endpoint_init.go.tpl, file_server.go.tpl and server_mount.go.tpl test. checks/c20.py reports
+// a required branch that no design reaches.
+
+var branchCover = map[string][]string{}
+
+var requiredBranches = []string{
+	"server: request decoded (payload)", "server: nothing to decode (no payload)",
+	"server: plain endpoint call, result encoded", "server: errors declared (generated error encoder)", "server: no errors (goahttp.ErrorEncoder)",
+	"server: redirect, request decoded first", "server: redirect, nothing to decode",
+	"server: SkipRequestBodyEncodeDecode with payload", "server: SkipRequestBodyEncodeDecode without payload",
+	"server: SkipResponseBodyEncodeDecode with result", "server: SkipResponseBodyEncodeDecode without result",
+	"server: SkipRequest and SkipResponse together",
+	"server: multipart request decoder", "server: websocket with payload", "server: websocket without payload",
+	"server: viewed result", "server: secured endpoint", "server: several routes for one endpoint",
+	"server: file server (file)", "server: file server (directory)", "server: file server (redirect)",
+	"client: request encoder (body)", "client: no request encoder", "client: multipart request encoder",
+	"client: websocket, server streaming (cancel goroutine)", "client: websocket, client sends", "client: websocket, viewed result (SetView)",
+	"client: SkipResponseBodyEncodeDecode with result", "client: SkipResponseBodyEncodeDecode without result", "client: SkipRequestBodyEncodeDecode",
+}
+
+func recordBranches(design string) {
+	add := func(label, where string) { branchCover[label] = append(branchCover[label], where) }
+	for _, hs := range expr.Root.API.HTTP.Services {
+		sd := httpcodegen.HTTPServices.Get(hs.Name())
+		if sd == nil {
+			continue
+		}
+		for _, e := range sd.Endpoints {
+			w := design + "." + hs.Name() + "." + e.Method.Name
+			ws := e.ServerWebSocket != nil || e.ClientWebSocket != nil
+			hasPayload := e.Payload != nil && e.Payload.Ref != ""
+			hasResult := e.Result != nil && e.Result.Ref != ""
+			skipReq, skipResp := e.Method.SkipRequestBodyEncodeDecode, e.Method.SkipResponseBodyEncodeDecode
+			if hasPayload {
+				add("server: request decoded (payload)", w)
+			} else {
+				add("server: nothing to decode (no payload)", w)
+			}
+			if len(e.Errors) > 0 {
+				add("server: errors declared (generated error encoder)", w)
+			} else if e.Redirect == nil {
+				add("server: no errors (goahttp.ErrorEncoder)", w)
+			}
+			switch {
+			case e.Redirect != nil && hasPayload:
+				add("server: redirect, request decoded first", w)
+			case e.Redirect != nil:
+				add("server: redirect, nothing to decode", w)
+			case ws && hasPayload:
+				add("server: websocket with payload", w)
+			case ws:
+				add("server: websocket without payload", w)
+			case !skipReq && !skipResp:
+				add("server: plain endpoint call, result encoded", w)
+			}
+			if skipReq && hasPayload {
+				add("server: SkipRequestBodyEncodeDecode with payload", w)
+			}
+			if skipReq && !hasPayload {
+				add("server: SkipRequestBodyEncodeDecode without payload", w)
+			}
+			if skipResp && hasResult {
+				add("server: SkipResponseBodyEncodeDecode with result", w)
+				add("client: SkipResponseBodyEncodeDecode with result", w)
+			}
+			if skipResp && !hasResult {
+				add("server: SkipResponseBodyEncodeDecode without result", w)
+				add("client: SkipResponseBodyEncodeDecode without result", w)
+			}
+			if skipReq && skipResp {
+				add("server: SkipRequest and SkipResponse together", w)
+			}
+			if skipReq {
+				add("client: SkipRequestBodyEncodeDecode", w)
+			}
+			if e.MultipartRequestDecoder != nil {
+				add("server: multipart request decoder", w)
+			}
+			if e.MultipartRequestEncoder != nil {
+				add("client: multipart request encoder", w)
+			}
+			if e.Method.ViewedResult != nil {
+				add("server: viewed result", w)
+			}
+			if len(e.Requirements) > 0 {
+				add("server: secured endpoint", w)
+			}
+			if len(e.Routes) > 1 {
+				add("server: several routes for one endpoint", w)
+			}
+			if e.RequestEncoder != "" {
+				add("client: request encoder (body)", w)
+			} else {
+				add("client: no request encoder", w)
+			}
+			if cw := e.ClientWebSocket; cw != nil {
+				if cw.SendName == "" {
+					add("client: websocket, server streaming (cancel goroutine)", w)
+				} else {
+					add("client: websocket, client sends", w)
+				}
+				if e.Method.ViewedResult != nil && e.Method.ViewedResult.ViewName == "" {
+					add("client: websocket, viewed result (SetView)", w)
+				}
+			}
+		}
+		for _, f := range sd.FileServers {
+			w := design + "." + hs.Name() + ".files:" + f.FilePath
+			switch {
+			case f.Redirect != nil:
+				add("server: file server (redirect)", w)
+			case f.IsDir:
+				add("server: file server (directory)", w)
+			default:
+				add("server: file server (file)", w)
+			}
+		}
+	}
 }
